@@ -52,6 +52,7 @@ type FuncContract struct {
 	Names      []string // declared parameter/result names for externs: (a, b) (r1, r2)
 	ResNames   []string
 	ImplOf     string // contract of an interface method cloned from this proved method contract (implements)
+	ConstFn    string // function literal that always returns (the content of this captured write-once variable, nil)
 }
 
 type GhostSet struct {
@@ -339,6 +340,11 @@ func (L *Library) loadFile(path string) error {
 			}
 		case "noinline":
 			cur.NoInline = true
+		case "constfn":
+			// constfn <captured variable>: the literal returns the content of that variable and a nil error on every path
+			// (proved as its clause CONST); closures of it are then constant functions (pfConst / pfRet), provided the
+			// captured variable is never written after the closure was made (checked syntactically where it is made)
+			cur.ConstFn = strings.TrimSpace(rest)
 		case "nilable":
 			for _, a := range strings.Split(rest, ",") {
 				cur.Nilable[strings.TrimSpace(a)] = true
